@@ -201,7 +201,7 @@ impl Leg for Histories {
     fn strategy(tier: Tier) -> BoxedStrategy<Case> {
         any::<bool>()
             .prop_flat_map(move |dir_based| {
-                (proptest::collection::vec(step_strategy(tier, dir_based), 2..=3), 0u8..20).prop_map(|(mut steps, shape)| {
+                (proptest::collection::vec(step_strategy(tier, dir_based), 2..=3), 0u8..26).prop_map(|(mut steps, shape)| {
                     let n = steps.len();
                     match shape {
                         0..=2 => {
@@ -216,14 +216,20 @@ impl Leg for Histories {
                             y.slot = 1 - x.slot;
                             steps = vec![x.clone(), y, x];
                         }
-                        7..=10 => {
+                        7..=15 => {
                             // the input file of the previous step rewritten in place with other records of the
                             // same byte length (every sequence reversed), same command or the generated one
                             let prev = steps[n - 2].clone();
-                            let mut l = if shape % 2 == 0 { prev.clone() } else { steps[n - 1].clone() };
+                            // the same command again (shapes 10..) or the generated one; for the same command, half of the
+                            // time both runs stay inside this process (state kept in memory between two library calls)
+                            let mut l = if shape >= 10 { prev.clone() } else { steps[n - 1].clone() };
+                            if shape >= 13 {
+                                steps[n - 2].via_cli = false;
+                                l.via_cli = false;
+                            }
                             l.slot = prev.slot;
                             l.recs = prev.recs.iter().map(|r| Rec { id: r.id.clone(), desc: r.desc.clone(), seq: crate::util::Bytes(r.seq.0.iter().rev().copied().collect()) }).collect();
-                            if shape >= 9 && l.recs.len() >= 2 {
+                            if shape % 2 == 1 && l.recs.len() >= 2 {
                                 // same byte size, one record fewer: two neighbours merged, the second header line paid for in bases
                                 let size = |r: &Rec| 1 + io::header_line(r).len() + 1 + if r.seq.0.is_empty() { 0 } else { r.seq.0.len() + 1 };
                                 let i = (l.recs.len() - 1) / 2;
